@@ -358,6 +358,115 @@ fn c14_laws(rep: &mut Report, tier: Tier) {
     rep.bounds["law_universe"] = json!({"values": vals.len(), "max_nodes": n, "leaves": leaves.iter().map(|l| l.show()).collect::<Vec<_>>(), "keys": keys});
 }
 
+/// C14, construction routes: the same content built through every public route (so that
+/// inline/heap storage, buffer capacity and table internals differ) must be ==, compare Equal
+/// and hash identically; also inside arrays and objects (as key and as value).
+fn c14_routes(rep: &mut Report) {
+    use json_syntax::{NumberBuf, Object, Parse};
+    let mut t = Tally::new();
+    let contents: Vec<String> = ["", "a", "abcdefghijklmnop", "abcdefghijklmnopq", "abcdefghijklmnopqrstuvwx", "\u{e9}\u{1f600}\u{e9}\u{1f600}\u{e9}\u{1f600}x", &"z".repeat(100)]
+        .iter()
+        .map(|s| s.to_string())
+        .collect();
+    let mut check_all = |what: &str, routes: &[(&str, Value)], t: &mut Tally| {
+        for (i, (ra, a)) in routes.iter().enumerate() {
+            for (rb, b) in routes.iter().skip(i + 1) {
+                t.evals += 1;
+                let case = json!({"kind": "routes", "what": what, "route_a": ra, "route_b": rb, "value": a.to_string()});
+                if a != b || b != a {
+                    t.violation("", format!("{what}: built by [{ra}] != built by [{rb}]"), case.clone());
+                }
+                if a.cmp(b) != std::cmp::Ordering::Equal || a.partial_cmp(b) != Some(std::cmp::Ordering::Equal) {
+                    t.violation("", format!("{what}: built by [{ra}] does not compare Equal to built by [{rb}]"), case.clone());
+                }
+                if std_hash(a) != std_hash(b) {
+                    t.violation("", format!("{what}: built by [{ra}] hashes differently from built by [{rb}]"), case.clone());
+                }
+                t.outcome("route pair");
+            }
+        }
+    };
+    for c in &contents {
+        // --- strings
+        let lit = refmodel::RV::Str(c.clone()).show();
+        let mut roomy = String::with_capacity(200);
+        roomy.push_str(c);
+        let mut pushed = json_syntax::String::new();
+        for ch in c.chars() {
+            pushed.push(ch);
+        }
+        let mut grown = json_syntax::String::from(c.as_str());
+        grown.push_str("0123456789012345678901234567890123456789");
+        grown.truncate(c.len());
+        let base = Value::from(c.as_str());
+        let routes: Vec<(&str, Value)> = vec![
+            ("From<&str>", base.clone()),
+            ("From<String> with spare capacity", Value::from(roomy.clone())),
+            ("parse_str", Value::parse_str(&lit).unwrap().0),
+            ("parse_slice", Value::parse_slice(lit.as_bytes()).unwrap().0),
+            ("clone", base.clone().clone()),
+            ("char by char", Value::String(pushed.clone())),
+            ("grown then truncated", Value::String(grown.clone())),
+            ("to_value", json_syntax::to_value(c.as_str()).unwrap()),
+            ("from_serde_json", Value::from_serde_json(serde_json_string(c))),
+            ("from_value::<Value>", json_syntax::from_value::<Value>(base.clone()).unwrap()),
+        ];
+        check_all("string", &routes, &mut t);
+        t.nontrivial(&("string", c));
+        // --- the same strings inside an array and as key / value of an object
+        let wrap = |v: &Value, key: json_syntax::object::Key| {
+            let mut o = Object::new();
+            o.push(key, v.clone());
+            let mut a = Vec::with_capacity(7);
+            a.push(v.clone());
+            a.push(Value::Object(o));
+            Value::Array(a)
+        };
+        let nested: Vec<(&str, Value)> = vec![
+            ("From<&str> key and value", wrap(&routes[0].1, c.as_str().into())),
+            ("roomy key and value", wrap(&routes[1].1, json_syntax::object::Key::from(roomy.clone()))),
+            ("pushed key, parsed value", wrap(&routes[2].1, pushed.clone())),
+            ("grown key, cloned value", wrap(&routes[4].1, grown.clone())),
+            ("parsed document", Value::parse_str(&format!("[{lit},{{{lit}:{lit}}}]")).unwrap().0),
+        ];
+        check_all("array/object holding the string", &nested, &mut t);
+    }
+    // --- numbers: inline and heap-spilled spellings
+    for n in ["0", "-1.5E+2", "1234567890123456", "12345678901234567", "12345678901234567890.5", &"9".repeat(60)] {
+        let mut roomy = Vec::with_capacity(128);
+        roomy.extend_from_slice(n.as_bytes());
+        let base = Value::Number(NumberBuf::new(n.as_bytes().into()).unwrap());
+        let routes: Vec<(&str, Value)> = vec![
+            ("NumberBuf::new(exact)", base.clone()),
+            ("NumberBuf::new(with spare capacity)", Value::Number(NumberBuf::new(roomy.into()).unwrap())),
+            ("parse_str", Value::parse_str(n).unwrap().0),
+            ("parse_slice padded", Value::parse_slice(format!(" {n} ").as_bytes()).unwrap().0),
+            ("clone", base.clone().clone()),
+            ("From<&Number>", Value::from(base.as_number().unwrap())),
+        ];
+        check_all("number", &routes, &mut t);
+        t.nontrivial(&("number", n));
+    }
+    // --- arrays with different capacities
+    let items = vec![Value::Null, Value::from("x"), Value::Boolean(true)];
+    let mut roomy = Vec::with_capacity(64);
+    roomy.extend(items.iter().cloned());
+    let routes: Vec<(&str, Value)> = vec![
+        ("vec!", Value::Array(items.clone())),
+        ("with_capacity(64)", Value::Array(roomy)),
+        ("parse", Value::parse_str("[null,\"x\",true]").unwrap().0),
+        ("collect", Value::Array(items.iter().cloned().collect())),
+    ];
+    check_all("array", &routes, &mut t);
+    rep.bounds["construction_routes"] = json!({"string_contents": contents.len(), "string_routes": 10, "nested_routes": 5, "numbers": 6, "number_routes": 6, "array_routes": 4});
+    rep.tally.sample(json!({"routes_for_one_string": ["From<&str>", "From<String> with spare capacity", "parse_str", "parse_slice", "clone", "char by char", "grown then truncated", "to_value", "from_serde_json", "from_value::<Value>"]}));
+    rep.absorb(t);
+}
+
+fn serde_json_string(s: &str) -> serde_json::Value {
+    serde_json::Value::String(s.to_string())
+}
+
 /// C15: unordered equality against recursively sorted normal forms, all ordered pairs.
 fn c15(rep: &mut Report, tier: Tier) {
     c15_universe(rep, tier, &[RV::num("0"), RV::num("1")], &["a", "b"], 5, "binary");
@@ -545,6 +654,7 @@ fn main() {
             let mut rep = Report::new(&args, "model_checking", "E-STATE history search (shared with C06) + E-ENUM laws over all pairs/triples");
             state_search(&mut rep, args.tier, "C14");
             c14_laws(&mut rep, args.tier);
+            c14_routes(&mut rep);
             rep.rule = "histories: every reachable state of the C06 search is compared (==, cmp, partial_cmp, hash, also wrapped in Value) with from_vec / from_iter / clone builds of the same entry list, under three hash modes; laws: all ordered pairs and all triples a<=b<=c of the universe of all values up to the node bound".into();
             rep.assumptions.push("std's DefaultHasher::new() (fixed keys) is the probe hasher; equality of hashes is required only for equal values".into());
             rep.finish()
